@@ -4,10 +4,10 @@ import itertools
 from harness import core
 
 PROP = "C17"
-GEN = []
+GEN = ["Subscripts"]
 VO = ["Properties/C17.vo", "Extract/D_C17.vo"]
 MODULE = "Properties.C17"
-THEOREMS = ["c17_retry", "c17_log_shape", "c17_config"]
+THEOREMS = ["c17_retry", "c17_log_shape", "c17_config", "c17_subscripts"]
 DRIVER = "D_C17"
 TECHNIQUE = ("Coq proof by induction over the attempt loop of a hand-written Gallina model of retrying.py, for every "
              "outcome sequence and configuration; model tied to the code by an exhaustive extracted-model/implementation "
@@ -38,7 +38,7 @@ def classes():
             1: KeyboardInterrupt, 5: ValueError}
 
 
-def run_impl(att, delay, rf, dnr, script, spelling=list, dynamic_name=False):
+def run_impl(att, delay, rf, dnr, script, spelling=list, dynamic_name=False, entry="m"):
     """-> (result, log) with result ('o', v) | ('e', tag); log = ['c', delay, 'c', ...]"""
     import pymemcache.client.retrying as R
     cl = classes()
@@ -46,7 +46,7 @@ def run_impl(att, delay, rf, dnr, script, spelling=list, dynamic_name=False):
     log = []
     it = iter(script)
 
-    def method():
+    def method(*a, **k):
         log.append("c")
         try:
             o = next(it)
@@ -60,7 +60,7 @@ def run_impl(att, delay, rf, dnr, script, spelling=list, dynamic_name=False):
         pass
     inner = Inner()
     if not dynamic_name:
-        inner.m = method
+        inner.m = inner.set = inner.get = inner.delete = method
     saved = R.sleep
     R.sleep = lambda d: log.append(d)
     try:
@@ -70,7 +70,16 @@ def run_impl(att, delay, rf, dnr, script, spelling=list, dynamic_name=False):
         if dynamic_name:
             inner.m = method        # appears after dir(client) was recorded: callable, but not in _client_dir
         try:
-            res = ("o", rc.m())
+            if entry == "m":
+                res = ("o", rc.m())
+            elif entry == "setitem":            # the subscript forms go through the same retry loop
+                rc[b"k"] = b"v"
+                res = ("o", None)
+            elif entry == "getitem":
+                res = ("o", rc[b"k"])
+            else:
+                del rc[b"k"]
+                res = ("o", None)
         except BaseException as e:   # noqa
             t = [k for k, c in cl.items() if type(e) is c]
             res = ("e", t[0] if t else -1)
@@ -211,6 +220,25 @@ def search(ctx):
             found.append({"clause": why, "input": {"attempts": att, "retry_delay": delay, "retry_for": [TAGS[t] for t in rf],
                           "do_not_retry_for": [TAGS[t] for t in dnr], "outcomes": repr(script)},
                           "observed": {"result": repr(res), "log": log}, "size": att * 10 + len(script), "case": repr(c)})
+    # rc[k] = v, rc[k] and del rc[k] are set / get / delete through the same loop: same invocations, same sleeps, same error
+    n_sub = 0
+    for c in cases[::7]:
+        att, delay, rf, dnr, script, dyn = c
+        if dyn:
+            continue
+        ref = run_impl(att, delay, rf, dnr, script, list, False, "m")
+        for entry in ("setitem", "getitem", "delitem"):
+            n_sub += 1
+            res, log = run_impl(att, delay, rf, dnr, script, list, False, entry)
+            same_res = (res == ref[0]) if ref[0][0] == "e" else (res[0] == "o" and (entry != "getitem" or res == ref[0]))
+            if ref[0] == ("o", None) and entry == "getitem":
+                same_res = res[0] == "e"            # a miss is KeyError, raised after the loop has returned None
+            if log != ref[1] or not same_res:
+                found.append({"clause": "the subscript form %s does not follow the retry discipline of the method it stands for" % entry,
+                              "input": {"attempts": att, "retry_delay": delay, "retry_for": [TAGS[t] for t in rf],
+                                        "do_not_retry_for": [TAGS[t] for t in dnr], "outcomes": repr(script), "entry": entry},
+                              "observed": {"result": repr(res), "log": log, "method_result": repr(ref[0]), "method_log": ref[1]},
+                              "size": att * 10 + len(script), "case": None})
     for att in (-1, 0, 1):
         for rf in CFG_ARGS:
             for dnr in CFG_ARGS:
@@ -227,7 +255,7 @@ def search(ctx):
                     found.append({"clause": "invalid configurations are rejected at construction (and valid ones accepted)",
                                   "input": {"attempts": att, "retry_for": repr(rf), "do_not_retry_for": repr(dnr)},
                                   "observed": repr(r), "size": 0, "case": None})
-    ctx.search_summary = {"runs_checked_against_clauses": len(cases), "constructor_configs": 3 * len(CFG_ARGS) ** 2}
+    ctx.search_summary = {"runs_checked_against_clauses": len(cases), "subscript_form_runs": n_sub, "constructor_configs": 3 * len(CFG_ARGS) ** 2}
     found.sort(key=lambda v: v["size"])
     return found[:1]
 
